@@ -744,7 +744,7 @@ def run(ctx: Ctx):
 
     rng = ctx.rng.fork("c04")
     units = _build_units(ctx, rng)
-    n_workers = int(os.environ.get("C04_WORKERS", "0") or 0) or (12 if ctx.thorough else 4)
+    n_workers = int(os.environ.get("C04_WORKERS", "0") or 0) or (12 if ctx.thorough else 6)
     n_workers = max(1, min(n_workers, len(units), (os.cpu_count() or 2)))
     ctx.cov["units"] = len(units)
     ctx.cov["worker_processes"] = n_workers
@@ -1293,12 +1293,18 @@ def _io_units(ctx: Ctx, rng: Rng) -> List[dict]:
         return []
     base = strip_rng(uc2)        # nothing that draws from a global generator in `step`: the model predicts A unaffected, F-11 stays out
     units = []
-    for name, off, on in io_variants():
+    special = ("log-levels", "all-options", "save_sys_logs", "save_pcap_logs")
+    for k, (name, off, on) in enumerate(io_variants()):
         for a_on in (False, True):
-            # quick: single options in the direction "A off, B on" only (the reverse direction through log-levels / all-options)
-            if a_on and not ctx.thorough and name not in ("log-levels", "all-options", "save_sys_logs", "save_pcap_logs"):
-                continue
             for b_first in (False, True):
+                # thorough: every option x both directions x both creation orders (40). quick (18): every single option in the direction
+                # "A off, B on" with the creation order alternating from option to option (the schedule itself closes and re-builds B
+                # while A lives); both orders and the reverse direction for the options that create loggers and for the combined variants
+                if not ctx.thorough:
+                    if name not in special and (a_on or b_first != bool(k % 2)):
+                        continue
+                    if name in special and a_on and b_first:
+                        continue
                 la = f"io:{name}={'on' if a_on else 'off'}"
                 lb = f"io:{name}={'off' if a_on else 'on'}"
                 units.append({"kind": "io", "label": f"{la}|{lb}|{'B' if b_first else 'A'}-first", "la": la, "lb": lb,
